@@ -52,7 +52,10 @@ def run_cfg_job(a):
         if q:
             argv += ["-Q", str(q)]
         if tool == "gensquashfs":
-            argv += ["-F", os.path.join(wd, "pack.txt"), "-D", os.path.join(wd, "in"), img]
+            argv += ["-F", os.path.join(wd, "pack.txt"), "-D", os.path.join(wd, "in")]
+            if os.path.exists(os.path.join(wd, "sort.txt")):
+                argv += ["-S", os.path.join(wd, "sort.txt")]
+            argv += [img]
             stdin_file = None
         else:
             argv += [img]
@@ -212,6 +215,12 @@ def main():
         sp1 += [E(b"z", "file", content=bytes(3 * B) + b"end"), E(b"dup", "file", content=content_pattern("m1", 1 * B + 100))]
         inputs.append(("many-blocks-frags-dups-sparse", sp1))
         inputs.append(("rich", scenarios.spec_rich()))
+        # per-file packing flags from a sort file: flags of the file being appended must not leak into blocks submitted earlier (depends on how far dequeuing lags = -Q)
+        comp_txt = lambda tag, n: ((tag + " compressible line\n") * (n // 10 + 1)).encode()[:n]
+        sp_sort = [E(b"a", "file", content=comp_txt("a", 300)), E(b"b", "file", content=comp_txt("b", 700)), E(b"c", "file", content=comp_txt("c", 1100)),
+                   E(b"zbig", "file", content=comp_txt("zbig", 20 * B + 7)), E(b"zz", "file", content=comp_txt("zz", 2 * B + 50)), E(b"zzz", "file", content=comp_txt("zzz", 90))]
+        inputs.append(("sort-flags", sp_sort))
+        SORTS = {"sort-flags": b"0 [dont_compress] zbig\n1 [dont_fragment] zz\n"}
         if not cr.quick:
             inputs.append(("frag-overflow", scenarios.spec_frag()))
             inputs.append(("big", [E(b"big%d" % i, "file", content=content_pattern("B%d" % i, 37 * B + i)) for i in range(4)]))
@@ -223,6 +232,8 @@ def main():
             os.makedirs(wd)
             pf = treegen.render_packfile(spec, wd)
             open(os.path.join(wd, "pack.txt"), "wb").write(pf)
+            if iname in SORTS:
+                open(os.path.join(wd, "sort.txt"), "wb").write(SORTS[iname])
             tarb = scenarios.make_tar([e for e in spec if e["type"] != "sock"])
             open(os.path.join(wd, "in.tar"), "wb").write(tarb)
             for tool in ("gensquashfs", "tar2sqfs"):
